@@ -153,12 +153,16 @@ impl Client {
     }
 }
 
-/// `auto = false`: the `files.autoSave` question is answered with `afterDelay`, so the server's periodic re-check thread
-/// (`start_auto_diagnostics`) exits and the notification state machine is deterministic. `auto = true`: no answer (the
-/// default of molc's fake client; the thread keeps polling every 500 ms).
+/// `auto = false` (deterministic streams): the `files.autoSave` question is answered with `afterDelay`, so the server's periodic re-check
+/// thread (`start_auto_diagnostics`) exits, and the server is started with `--disable deepCompletion`, so `CompletionCache::new` does not
+/// spawn the thread that type-checks ~40 stdlib modules THROUGH THE SAME shared compiler resource (module graph, caches, error lists)
+/// concurrently with the notifications — with it the trace of a history depends on how fast the machine is.
+/// `auto = true`: the default configuration of `bind_fake_client` (no answer, deep completion on); we then wait for
+/// `flags.builtin_modules_loaded` before the first notification.
 pub fn new_client(auto: bool) -> Result<Client, String> {
     let (tx, rx) = std::sync::mpsc::channel();
-    let cfg = ErgConfig { mode: ErgMode::LanguageServer, ..Default::default() };
+    let cfg = if auto { ErgConfig { mode: ErgMode::LanguageServer, ..Default::default() } }
+              else { ErgConfig { mode: ErgMode::LanguageServer, runtime_args: ["--disable", "deepCompletion"].into(), ..Default::default() } };
     let server = els::Server::new(cfg, Some(tx));
     let mut c = Client { server, rx, responses: vec![], req_id: 0, ver: 0, after_delay: !auto };
     // the capabilities molc's FakeClient announces that the server looks at
@@ -175,8 +179,23 @@ pub fn new_client(auto: bool) -> Result<Client, String> {
     while !c.server.flags.workspace_checked() && t0.elapsed() < Duration::from_secs(20) {
         std::thread::sleep(Duration::from_millis(2));
     }
+    if auto {
+        let t0 = std::time::Instant::now();
+        while !c.server.flags.builtin_modules_loaded() && t0.elapsed() < Duration::from_secs(120) {
+            std::thread::sleep(Duration::from_millis(5));
+        }
+    }
     c.drain();
     Ok(c)
+}
+
+/// scratch directory next to the harness binary (inside the harness' own target directory: nothing outside /verif and the scratch root is
+/// needed, in particular not /tmp)
+pub fn scratch_dir(tag: &str) -> std::path::PathBuf {
+    let base = std::env::current_exe().ok().and_then(|p| p.parent().map(|d| d.to_path_buf())).unwrap_or_else(std::env::temp_dir);
+    let d = base.join("scratch").join(format!("{}-{}", tag, std::process::id()));
+    let _ = std::fs::create_dir_all(&d);
+    d
 }
 
 pub fn is_method(v: &Value, m: &str) -> bool { v.get("method").is_some_and(|x| x == m) }
